@@ -139,6 +139,11 @@ def check(run):
         one_case(run, specs)
         one_case(run, list(reversed(specs)), specs2=specs[:1])
         run.count("SP-type shared exponent arrays")
+    from checks.common import structural_families
+    for lab, specs, _ in structural_families(run, transforms=False):
+        # the second basis shares its first shell object with the first one (only the `obj` copies are the same object)
+        one_case(run, specs, specs2=[specs[0].copy(), specs[-1].copy(obj=None)])
+        run.count(lab)
     from checks.common import custom_order_family
     for k in range(2 if run.tier == "quick" else 8):
         one_case(run, custom_order_family(rng, (2, 1, 3) if k % 2 else (1, 2)))
